@@ -46,8 +46,15 @@ def canon_recv(f, e):
     """canonical text of a sliced/searched receiver: a Name that is only ever assigned from
     `<Y>.getvalue()` stands for that accumulator"""
     if isinstance(e, ast.Name):
-        vals = [s.ast.value for s in stores_to_name(f, e.id) if s.kind == "stmt" and isinstance(s.ast, ast.Assign) and len(s.ast.targets) == 1 and isinstance(s.ast.targets[0], ast.Name)]
         alls = stores_to_name(f, e.id)
+        # only the stores that reach this use (no other store of the name in between) matter: an earlier binding of
+        # the same name (e.g. the parameter copied into it by helper expansion) is dead here
+        use = f.cfg.nodes_containing(e)
+        if use and len(alls) > 1:
+            reaching = [s_ for s_ in alls if any(u in f.cfg.reachable([(s_, "next")], without_nodes=[x for x in alls if x is not s_], follow_exc=False) for u in use)]
+            if reaching:
+                alls = reaching
+        vals = [s.ast.value for s in alls if s.kind == "stmt" and isinstance(s.ast, ast.Assign) and len(s.ast.targets) == 1 and isinstance(s.ast.targets[0], ast.Name)]
         if vals and len(vals) == len(alls) and all(isinstance(v, ast.Call) and isinstance(v.func, ast.Attribute) and v.func.attr == "getvalue" for v in vals):
             texts = set(norm(v) for v in vals)
             if len(texts) == 1 and e.id not in names(vals[0]):
